@@ -9,7 +9,7 @@ for P in $PROPS; do
     rsync -a --exclude .git --exclude examples --exclude doc /repo/ $SCR/
     if ! (cd $SCR && patch -s -p1 --no-backup-if-mismatch < $D/patch.diff >/dev/null 2>&1); then echo "$P $D: PATCH DOES NOT APPLY"; rm -rf $SCR $OUT; continue; fi
     PID=${P%%-*}
-    RES=$(HVC_REPO=$SCR HVC_OUT=$OUT timeout 600 /verif/bin/hvc check $PID 2>&1)
+    RES=$(HVC_REPO=$SCR HVC_OUT=$OUT timeout 600 ${HVC_BIN:-/verif/bin/hvc} check $PID 2>&1)
     RC=$?
     V=$(echo "$RES" | grep -c "^VIOLATION")
     FIRST=$(echo "$RES" | grep "^VIOLATION" | head -2 | sed 's/.*obligation=//' | tr '\n' ';')
